@@ -230,6 +230,9 @@ pub struct CaSpec {
     pub mft_next_update: i64,
     pub mft_ee_not_after: i64,
     pub crl_next_update: i64,
+    /// Only issue the certificate, do not build a publication point (the
+    /// certificate points at a point built elsewhere).
+    pub skip_point: bool,
 }
 
 pub const YEAR: i64 = 365 * 86400;
@@ -247,6 +250,7 @@ impl CaSpec {
             cert_not_after: YEAR,
             mft_number: 1, mft_this_update: -3600, mft_next_update: DAY,
             mft_ee_not_after: 7 * DAY, crl_next_update: DAY,
+            skip_point: false,
         }
     }
 
@@ -718,6 +722,7 @@ impl<'a> Builder<'a> {
         });
 
         for (child, uri, child_dead, child_dc) in child_info {
+            if child.skip_point { continue }
             self.build_ca(child, &uri, child_dead, child_dc, chain);
         }
         chain.pop();
